@@ -32,7 +32,10 @@ def run_shard(prop, spec, scratch, timeout):
     cmd = [env.PY]
     if spec.get("optimize"):
         cmd.append("-O")
-    cmd += ["-m", "vf.shard", prop, json.dumps(spec), out]
+    specfile = os.path.join(scratch, "spec-%s.json" % spec["shard"])       # not on argv: specs can be large
+    with open(specfile, "w") as f:
+        json.dump(spec, f)
+    cmd += ["-m", "vf.shard", prop, specfile, out]
     e = env.child_env(registry=spec.get("registry", True))
     e["VERIF_SCRATCH"] = scratch
     t0 = time.time()
